@@ -1,8 +1,9 @@
 (* Extraction of the executable model to OCaml.  ExtrOcamlBasic only: no Extract Constant of our own,
    numbers stay the Coq inductives, text is [list N]. *)
 From Coq Require Extraction ExtrOcamlBasic.
-From PG Require Import Model.Text Model.SemVer.
+From PG Require Import Model.Text Model.SemVer Model.Range Model.Instances.
 
 Extraction "model.ml"
   dec_N dec_Z txt
+  RZ rz_display
   sv_parse sv_display sv_compare sv_to_tuple sv_of_tuple bump_patch bump_minor bump_major.
